@@ -21,6 +21,9 @@ import time
 ROOT = os.path.dirname(os.path.dirname(os.path.abspath(__file__)))
 REPO = os.environ.get("POMEROL_REPO", "/repo")
 BUILD = os.path.join(ROOT, ".build")
+if os.path.realpath(REPO) != "/repo":
+    # scratch copies of the repository (self-tests, seeded changes) get their own build trees
+    BUILD = os.path.join(ROOT, ".build", "alt-" + hashlib.sha1(os.path.realpath(REPO).encode()).hexdigest()[:8])
 COQ = os.path.join(ROOT, "coq")
 GUARD = "POMEROL_VERIF"
 NPROC = os.cpu_count() or 4
